@@ -242,7 +242,8 @@ func (t *TracksReader) MultiPlay(trackouts map[int]drivers.Out) error {
 		},
 	)
 
-	sort.Sort(pl)
+	// events of the same time must stay in the order of the file
+	sort.Stable(pl)
 
 	var last time.Duration = 0
 
